@@ -125,3 +125,21 @@ Theorem C04_model_file_is_final_image : forall (array : bool) cfg pm n t pz word
   map Z.of_nat (CrashProofs.final_image wm iv (contents_of (trie_written array cfg pm n t pz words) iv vocab1 search1))
   = trie_file array cfg pm n t pz words iv.
 Proof. exact model_file_is_final_image. Qed.
+
+(* ... and the loader of the written type and version accepts that file and finds the model's vocabulary region and the model's search
+   structure exactly where it looks for them (C04_write_then_load instantiated with the file model; body_size = the Size() functions). *)
+Theorem C04_model_file_loads_back :
+  forall pm_ok body_size words_ok (array : bool) cfg pm n t pz words (iv : bool) vocab1 search1 wm lcfg,
+  let w := trie_written array cfg pm n t pz words in
+  (2 <= n <= max_order)%nat ->
+  length vocab1 = length (sorted_vocab_bytes words) -> length search1 = length (C03.TrieImage.trie_image array cfg n t pz) ->
+  pm_ok [w_p0 w; w_p1 w; w_p2 w; w_p3 w] = true ->
+  l_model_type lcfg = w_model_type w -> l_search_version lcfg = w_search_version w ->
+  (l_enumerate lcfg = true -> iv = true) ->
+  body_size lcfg (CrashProofs.final_image wm iv (contents_of w iv vocab1 search1)) = (length (w_vocab w) + w_pad w + length (w_search w))%nat ->
+  (iv = true -> l_enumerate lcfg = true -> words_ok (w_counts w) (w_words w) = true) ->
+  load pm_ok body_size words_ok lcfg (CrashProofs.final_image wm iv (contents_of w iv vocab1 search1))
+    = Some (body_of w iv, if iv && l_enumerate lcfg then Some (w_words w) else None) /\
+  firstn (length (w_vocab w)) (skipn (header_size n) (body_of w iv)) = map Z.to_nat (sorted_vocab_bytes words) /\
+  firstn (length (w_search w)) (skipn (header_size n + length (w_vocab w) + 0) (body_of w iv)) = map Z.to_nat (C03.TrieImage.trie_image array cfg n t pz).
+Proof. exact model_file_loads_back. Qed.
